@@ -161,7 +161,7 @@ def correspondence(ctx):
                 ctx.violation("history-dependent-result", "%s at position %d of history %s differs from the same run alone in a fresh process in: %s" % (
                     b[0], pos, [x[0] for x in batch], diff[:6]), dict(case, fields=diff[:20]))
             if kind == "history":
-                ctx.case((tuple(x[0] for x in batch), pos), nontrivial=pos > 0,
+                ctx.case((tuple(key(x) for x in batch), pos), nontrivial=pos > 0,
                          sample={"history": [x[0] for x in batch], "position": pos, "country": b[0], "fields_compared": len(o["fingerprint"]),
                                  "reads_before_first_write": o["reads_before_first_write"], "writes": o["n_writes"], "events": o["n_events"]})
             ctx.count("runs-compared-bitwise" if kind == "history" else "runs-alone")
